@@ -14,7 +14,7 @@ import io
 import itertools
 
 PROP = 'C16'
-TARGETS = ['T16a', 'T16b', 'T16c']
+TARGETS = ['T16a', 'T16b', 'T16c', 'T16d']
 LEAN_MODULES = ['HdVerif.Props.C16']
 MODEL_MODULES = ['HdVerif.Model.SRReport']
 NAMESPACE = 'HdVerif.C16'
